@@ -506,6 +506,9 @@ pub(crate) mod alloc {
             ])
             .final_exponentiation();
 
+            #[cfg(all(dusk_plonk_verif, feature = "std"))]
+            crate::verif::log_pairing_product(&pairing);
+
             // Return 'ProofVerificationError' if the two
             // pairings are not equal, continue otherwise
             if pairing != dusk_bls12_381::Gt::identity() {
@@ -793,6 +796,9 @@ pub(crate) mod alloc {
                 (&affines[1], &opening_key.prepared_h),
             ])
             .final_exponentiation();
+
+            #[cfg(all(dusk_plonk_verif, feature = "std"))]
+            crate::verif::log_pairing_product(&pairing);
 
             // Return 'ProofVerificationError' if the two
             // pairings are not equal, continue otherwise
